@@ -193,6 +193,9 @@ func (m *Machine) Choose(key string, n int) int {
 	return opt
 }
 
+// Seq is the number of calls of the named model (or of "make") made so far on the current path.
+func (m *Machine) Seq(name string) int { return m.callSeq[name] }
+
 // Atom forks on a boolean atom.
 func (m *Machine) Atom(key string) bool { return m.Choose(key, 2) == 1 }
 
